@@ -29,6 +29,9 @@ def default_cfg():
     }
 
 
+MACRO_OPS = ('churn', 'lagsnap', 'stalereply', 'fig8', 'staleterm', 'specsnap', 'ghostfwd')
+
+
 class Sim(object):
     probe_class = Probe
 
@@ -301,7 +304,17 @@ class Sim(object):
         op = OPS[step[0] % len(OPS)] if isinstance(step[0], int) else step[0]
         a, b, c = (list(step[1:]) + [0, 0, 0])[:3]
         self.step_no += 1
-        r = getattr(self, 'op_' + op)(a, b, c)
+        try:
+            r = getattr(self, 'op_' + op)(a, b, c)
+        except KeyError as e:
+            # a macro step lost one of its actors on the way (a node whose removal committed is shut down by the
+            # membership harness, a node killed inside a step): the rest of the macro step is skipped
+            if op in MACRO_OPS and e.args and e.args[0] in self.addr and e.args[0] not in self.nodes:
+                self.counters['macro_actor_gone'] += 1
+                self.blocked = set()
+                r = (op, 'actor-gone', e.args[0])
+            else:
+                raise
         self.counters['op_' + op] += 1
         if r is False:
             self.counters['noop_' + op] += 1
